@@ -562,6 +562,15 @@ theorem parseLines_include_nonempty (ls : List Line) (P : List Stmt) (h : parseL
   · exact incNEL_mem _ h0
   · exact incNEL_mem _ (incNEL_bodies _ h0 sc hsc)
 
+/-- **schema_valid.**  `List Stmt` is the schema by typing (see the remark at the top of the file); of the schema's two value
+constraints, `args` non-empty is enforced by the JSON boundary (`SyntaxJson.stmtToJson` omits `args` when the list is empty, as
+`parse_script` does), and `includes` non-empty holds for the spec lowering of every renderable program and for whatever the
+line-at-a-time parser accepts. -/
+theorem schema_valid :
+    (∀ B, incOkB B = true → ∀ sc ∈ scopes (lowerProgram B), Stmt.include [] ∉ sc) ∧
+    (∀ ls P, parseLines ls = .ok P → ∀ sc ∈ scopes P, Stmt.include [] ∉ sc) :=
+  ⟨lower_include_nonempty, parseLines_include_nonempty⟩
+
 example : incOkB demo = true := by decide
 example : parseLines (renderB demo) = .ok (lowerProgram demo) := by rfl
 
